@@ -1,10 +1,10 @@
 SPECIFICATION Spec
 CONSTANTS
   NB = 12
-  OpKinds = {"add", "addu", "rem"}
+  OpKinds = {"add", "addu", "rem", "sync"}
   MaxLen = 60
   MaxLevel = 6
-  Inits = {"empty", "one", "two", "deep", "wide"}
+  Inits = {"empty", "one", "split", "two", "deep", "wide"}
   Patterns = {"rand", "asc", "desc", "zig"}
   Emit = "leaf"
 INVARIANTS ModelOK EmitCase
